@@ -165,7 +165,9 @@ def write_replay(prop, clause, trace, hashseeds, detail, seed, extra=None):
     return path
 
 
-def replay(path):
+def replay(path, quiet=False):
+    import builtins
+    print = (lambda *a, **k: None) if quiet else builtins.print
     rec = json.load(open(path))
     prop = rec['property']
     mod = importlib.import_module('dst.props.' + prop)
@@ -355,6 +357,17 @@ def explore(prop, tier, seed, budget, fixed_runs, nworkers, quiet=False):
                                      'original_cells': len(
                                          trace.get('world', {}).get(
                                              'cells', []))})
+                # the minimised trace must fail in FRESH interpreters too; if
+                # only the unshrunk one does (shrinking happened in workers
+                # that carry state of earlier runs), that one is the replay
+                if os.environ.get('VERIF_NO_CONFIRM') != '1' and \
+                        replay(path, quiet=True) != 1:
+                    path = write_replay(
+                        prop, v['clause'], trace, hs, v['detail'],
+                        '%s-unshrunk' % rs, {'shrink_steps': 0,
+                                             'note': 'minimised trace did '
+                                             'not reproduce in a fresh '
+                                             'process'})
                 lines.append('VIOLATION property=%s replay=%s' % (prop, path))
                 agg.violations += 1
     finally:
